@@ -147,6 +147,7 @@ def gen(t, tier):
     # the seed workers are forked processes (the default on Linux): each works with the tile manager as it was when the
     # worker was started, not with what the parent sets on its own copy afterwards
     sc['fork_workers'] = bool(t.chance(0.5))
+    sc['seed_conf'] = bool(sc['via_loader']) and bool(t.chance(0.7))
     return sc
 
 
@@ -279,6 +280,8 @@ def _run(sc, tape):
                 return BlankImageSource(size=query.size, image_opts=opts, cacheable=False)
             return ImageSource(Image.new('RGBA', tuple(query.size), (0, 0, 0, 0)), size=tuple(query.size), image_opts=opts, cacheable=True)
 
+    last_pc = [None]
+
     def make_tm():
         if sc.get('via_loader'):
             # the tile manager comes out of the real configuration loader: a cache with its own refresh_before option and two
@@ -291,6 +294,7 @@ def _run(sc, tape):
             conf['grids']['g2'] = {'srs': 'EPSG:3857', 'tile_size': [U.TS, U.TS], 'num_levels': 3, 'origin': 'ul'}
             conf['caches']['c1']['grids'] = ['g', 'g2']
             pc_ = F.make_conf(conf)
+            last_pc[0] = pc_
             tmx = [t_ for _, _, t_ in pc_.caches['c1'].caches()][0]
             tmx.sources = [U.SimSource(w, shared, image_opts=image_opts)] + ([Overlay()] if sc.get('overlay') else [])
             return tmx
@@ -683,10 +687,30 @@ def _run(sc, tape):
         # the seeding tool builds its tile manager from the same configuration: the cache's own refresh_before option
         # (the rule in force while serving) is set there too - the seed task's refresh_before is what the task asked for
         tm2._refresh_before = dict(cache_rule or {})
+        task = None
+        if sc.get('via_loader') and sc.get('seed_conf') and not upfail[0] and not softfail[0]:
+            # the task comes out of the seeding configuration (seed.yaml with an absolute refresh_before); between reading the
+            # configuration and seeding, a server on the same cache writes a tile that is still older than the threshold
+            from mapproxy.seed.config import SeedingConfiguration
+            if spec['offset'] > 0:
+                T = float(int(clock.now) + 5)
+            seed_conf = {'seeds': {'s': {'caches': ['c1'], 'grids': ['g'], 'levels': [sc['level']],
+                                         'refresh_before': {'time': C.iso_local(T)}}}}
+            tasks_ = SeedingConfiguration(seed_conf, mapproxy_conf=last_pc[0]).seeds()
+            if len(tasks_) == 1 and tasks_[0].tile_manager is tm2:
+                task = tasks_[0]
+                probes['seed_task_from_configuration'] = probes.get('seed_task_from_configuration', 0) + 1
+                clock.now += 1.0
+                v_ = tuple(sc['pool'][0])
+                tm2._refresh_before = {}
+                tm2.cache.remove_tile(Tile(v_))
+                tm2.load_tile_coords([v_])
+                tm2._refresh_before = dict(cache_rule or {})
         before = _snapshot(tm2, all_level)
         n0 = len(shared['log'])
         extent = BBOXCoverage(grid.bbox, SRS(3857))
-        task = SeedTask({'name': 'refresh', 'cache_name': 'c', 'grid_name': 'g'}, tm2, [sc['level']], T, False, extent)
+        if task is None:
+            task = SeedTask({'name': 'refresh', 'cache_name': 'c', 'grid_name': 'g'}, tm2, [sc['level']], T, False, extent)
         try:
             seed_task(task, concurrency=2, skip_geoms_for_last_levels=0, progress_logger=None)
         except SourceError:
